@@ -23,7 +23,7 @@ ASSUMPTIONS = [
 ]
 BUDGET = {"quick": (16, 800), "thorough": (16, 30000)}
 
-SEG = ["a", "b", "docs", "%41", "%2f", "%2F", "%00", "%0a", "%zz", "%", "%4", "caf\xe9", "\xff", "\x80", "%e9", "%C3%A9", "x;y=1",
+SEG = ["a", "b", "docs", "%2541", "%252F", "%25", "%2520x", "%41", "%2f", "%2F", "%00", "%0a", "%zz", "%", "%4", "caf\xe9", "\xff", "\x80", "%e9", "%C3%A9", "x;y=1",
        "a+b", "~", ".", "..", "a:b", "@", "\x7f", "\t", "\x01", "\x0b", "\n", "\r", "[", "]", "{}", "a\\b", "\"", "<>", "^", "|", "`", ""]
 QRY = ["", "x=1", "a=b&c=d", "q=%20", "q=caf\xe9", "q=\xff", "a=1?b=2", "=", "%zz", "\t", "a\tb", "#", "x=1#frag", "#frag?x"]
 
